@@ -164,7 +164,11 @@ def prep (w : World) (r : ConnReq) : World :=
   { w with srv := setSrv w.srv r.srv (ensureKeys (w.srv r.srv) (autoKey (w.n + 1))) }
 
 /-- the cached session the client offers: found under the server's name and still using a suite it lists
-    (its version is always within the configured range here) -/
+    (its version is always within the configured range here).  `clientHandshake` also re-checks the server
+    certificates of the cached session against the verification policy of the connection
+    (`sessionServerCertsAcceptable`, modelled in Model.ClientResume): in the histories of this model every
+    session is offered under the policy that stored it (GMSSL mode: verifying, same instant, same name; TLS mode:
+    InsecureSkipVerify), so that gate always passes here -/
 def offered (m : Mode) (w : World) (r : ConnReq) : Option CSess :=
   if w.clientOff then none
   else (w.cache.get r.srv).1.filter (fun cs => (helloSuites m r.csuites).contains cs.sess.suite)
